@@ -394,7 +394,7 @@ impl Prop for C17 {
     }
     fn runs(&self, tier: Tier) -> u64 {
         match tier {
-            Tier::Quick => 600,
+            Tier::Quick => 3000,
             Tier::Thorough => 12_000,
         }
     }
